@@ -725,6 +725,29 @@ pub fn run_case_l(line: &str) -> String {
                             }
                         }
                     }
+                    "posta" => {
+                        // posta <i> <tx> <m>: a delivery begun (first half of the message, more = true) and then aborted by the sender:
+                        // it must never reach the application and must leave the link usable
+                        let i: usize = w[1].parse().unwrap();
+                        if !lp.links[i] {
+                            skipped = true;
+                        } else if lp.credit[i] <= 0 {
+                            nocredit = true;
+                        } else {
+                            let did = lp.next_did;
+                            lp.next_did += 1;
+                            let state = if w[2] == "-" { None } else { Some(DeliveryState::TransactionalState(TransactionalState { txn_id: Binary::from(lp.resolve(w[2])), outcome: None })) };
+                            let pay = msg_payload(&format!("m{}", w[3]));
+                            let cut = pay.len() / 2;
+                            let t1 = lp.transfer(i as u32, state.clone(), false, true, did);
+                            lp.send(t1, &pay[..cut]).await;
+                            let mut t2 = lp.transfer(i as u32, state, false, false, did);
+                            if let Performative::Transfer(t) = &mut t2 {
+                                t.aborted = true;
+                            }
+                            lp.send(t2, &[]).await;
+                        }
+                    }
                     "burst" => {
                         // burst <i> <tx> <first message> <n>: as many of the n posts as the link credit allows
                         let i: usize = w[1].parse().unwrap();
@@ -2256,6 +2279,19 @@ pub fn run(seed: u64, n: u64, thorough: bool, corpus: &[String], dir: &str) {
         if l.starts_with("txn-l") || l.starts_with("txn-c") {
             out.count("corpus_cases");
             lines.push(l.clone());
+        }
+    }
+    if n > 0 {
+        // a delivery aborted halfway, plain and under a transaction, followed by more work on the same link
+        for sc in [
+            "ctl ; lnk 1 ; decl ; post 1 t0 0 ; posta 1 t0 1 ; post 1 t0 2 ; commit t0 ; post 1 - 3",
+            "ctl ; lnk 1 ; decl ; posta 1 t0 0 ; commit t0 ; post 1 - 1 ; post 1 - 2",
+            "ctl ; lnk 1 ; decl ; posta 1 t0 0 ; post 1 t0 1 ; commit t0 ; decl ; post 1 t1 2 ; commit t1",
+            "ctl ; lnk 1 ; decl ; posta 1 t0 0 ; rollback t0 ; post 1 - 1",
+            "ctl ; lnk 1 ; lnk 2 ; decl ; posta 1 t0 0 ; post 2 t0 1 ; commit t0 ; post 1 - 2 ; post 2 - 3",
+            "lnk 1 ; posta 1 - 0 ; post 1 - 1 ; post 1 - 2",
+        ] {
+            lines.push(format!("txn-l | {}", sc));
         }
     }
     let nl = n * 6 / 10;
